@@ -300,7 +300,7 @@ func loadPool() (*keyPool, error) {
 			name, algo string
 			enc        bool
 		}{{"rsa", "rsa", true}, {"dsa", "dsa", true}, {"ecs", "ecdsa", false}, {"ec384", "ecdsa", false}, {"ec521", "ecdsa", false},
-			{"rsacse", "", true}, {"rsascs", "", true}, {"multie", "", true}, {"expsub", "", true}, {"ecmix", "", true}, {"dsacse", "", true}, {"revsub", "", true}} {
+			{"rsacse", "", true}, {"rsascs", "", true}, {"multie", "", true}, {"expsub", "", true}, {"ecmix", "", true}, {"dsacse", "", true}, {"revsub", "", true}, {"rsapref", "", true}} {
 			sec, err := os.ReadFile(filepath.Join(td, "keys", spec.name+".sec.asc"))
 			if err != nil {
 				poolErr = err
@@ -513,6 +513,7 @@ func newGPG(p *keyPool, budget int) *gpgEnv {
 	g.home = filepath.Join(base, "gnupg")
 	g.tmp = filepath.Join(base, "gpgtmp")
 	os.RemoveAll(g.home)
+	os.RemoveAll(g.home + "-nokeys")
 	os.RemoveAll(g.tmp)
 	if err := os.MkdirAll(g.home, 0o700); err != nil {
 		g.why = err.Error()
@@ -566,13 +567,30 @@ var errGPGTrouble = errors.New("gpg trouble")
 // run executes gpg with the common options; stdin is fed from in.  The status
 // lines (--status-fd) are appended to stderr.
 func (g *gpgEnv) run(in []byte, args ...string) (stdout, stderr []byte, rc int, err error) {
+	return g.runIn(g.home, in, args...)
+}
+
+// runNoKeys runs gpg in a second private home that holds no keys at all (what a
+// recipient who only knows the passphrase has).
+func (g *gpgEnv) runNoKeys(in []byte, args ...string) (stdout, stderr []byte, rc int, err error) {
+	h := g.home + "-nokeys"
+	if _, e := os.Stat(h); e != nil {
+		if e := os.MkdirAll(h, 0o700); e != nil {
+			return nil, nil, -1, fmt.Errorf("%w: %v", errGPGTrouble, e)
+		}
+		os.Chmod(h, 0o700)
+	}
+	return g.runIn(h, in, args...)
+}
+
+func (g *gpgEnv) runIn(home string, in []byte, args ...string) (stdout, stderr []byte, rc int, err error) {
 	g.calls++
 	ctx, cancel := context.WithTimeout(context.Background(), 60*time.Second)
 	defer cancel()
-	full := append([]string{"--homedir", g.home, "--no-tty", "--batch", "--yes", "--no-options", "--pinentry-mode", "loopback",
+	full := append([]string{"--homedir", home, "--no-tty", "--batch", "--yes", "--no-options", "--pinentry-mode", "loopback",
 		"--trust-model", "always", "--status-fd", "2", "--no-auto-key-locate", "--no-auto-check-trustdb"}, args...)
 	cmd := exec.CommandContext(ctx, "gpg", full...)
-	cmd.Env = append(os.Environ(), "GNUPGHOME="+g.home, "LC_ALL=C")
+	cmd.Env = append(os.Environ(), "GNUPGHOME="+home, "LC_ALL=C")
 	cmd.Stdin = bytes.NewReader(in)
 	var so, se bytes.Buffer
 	cmd.Stdout, cmd.Stderr = &so, &se
@@ -602,13 +620,18 @@ func (g *gpgEnv) have() bool { return g.ok && g.calls < g.budget }
 
 func (g *gpgEnv) close() {
 	if g.home != "" {
-		ctx, cancel := context.WithTimeout(context.Background(), 20*time.Second)
-		cmd := exec.CommandContext(ctx, "gpgconf", "--homedir", g.home, "--kill", "all")
-		cmd.Env = append(os.Environ(), "GNUPGHOME="+g.home)
-		cmd.Run()
-		cancel()
+		for _, h := range []string{g.home, g.home + "-nokeys"} {
+			if _, e := os.Stat(h); e != nil {
+				continue
+			}
+			ctx, cancel := context.WithTimeout(context.Background(), 20*time.Second)
+			cmd := exec.CommandContext(ctx, "gpgconf", "--homedir", h, "--kill", "all")
+			cmd.Env = append(os.Environ(), "GNUPGHOME="+h)
+			cmd.Run()
+			cancel()
+			os.RemoveAll(h)
+		}
 		os.RemoveAll(g.tmp)
-		os.RemoveAll(g.home)
 		if g.rmHome {
 			os.RemoveAll(filepath.Dir(g.home))
 		}
